@@ -18,6 +18,9 @@ CHECKS = {
     "C04": ("reference-model monitor: simultaneous capture-free Sub semantics vs f(**subs) under eager/lazy/reflect (+reinterpret); culprit localisation by dispatch monitor",
             "A catalogue of subjects is crossed with systematic value classes for each input (all singles, pair products, triple products/samples, foreign keys, chained calls); each result is compared with the reference substitution semantics on the whole integer input space, and lazily built substitutions must declare exactly the predicted inputs. Exploration.",
             "trusted: fv/refsem.py, fv/ir.py; ill-typed maps are discarded; declines (NotImplementedError/assertions) are counted, not violations", "DESIGN.md §6 C04"),
+    "C05": ("reference-model monitor with explicit lexical scoping; exhaustive name assignments on binder templates; bound-name leak invariant on every built term",
+            "Binder templates are instantiated with every assignment of their name slots to a pool of three equal-sized names (so binders, free variables and substituted values coincide adversarially), plus random binder-heavy programs over that pool; every exact route must keep bound names out of the inputs and agree with the capture-free reference at every point. Exploration.",
+            "trusted: fv/refsem.py lexical scoping; reserved '__BOUND' names are never generated", "DESIGN.md §6 C05"),
     "C08": ("reference-model monitor over four rewriting routes (naive eager, normalize, unfold, apply_optimizer) + identity check of normal forms + brute-force einsum oracle",
             "Sum-product programs are generated inside the carrier of each of the seven semirings, with operands that do or do not mention each reduced variable and optional free real parameters; every route that completes must equal the reference value on the whole input space; normalising twice must return the identical object; enumerated einsum equations are compared with brute force for the three numpy backends. Exploration.",
             "trusted: fv/refsem.py; carrier-restricted generators", "DESIGN.md §6 C08"),
